@@ -26,7 +26,7 @@ inner layers, re-encoded by refimpl with the archive's own key so that valid enc
 biased byte edits of the block stream and of the compression layer, forged file index with arbitrary offsets / sizes / eof \
 offsets / name lengths / length field, forged SizesInfo with arbitrary u32 values and counts, forged geometry = sizes table announcing up to 1100 extra empty \
 blocks together with an index length that places the index on / next to a block start of the claimed geometry, very long offset tables, \
-removed or duplicated end marker). Script = open, list, get_file + reads (buffer sizes incl. 0), get_hash, linear_extract, \
+removed or duplicated end marker, typed blocks swapped / moved / duplicated / deleted / given another file's id). Script = open, list, get_file + reads (buffer sizes incl. 0), get_hash, linear_extract, \
 repair in both modes, in generated order, continuing after every Err, finally drop. Cases run in worker processes. Oracle: \
 no panic; the worker survives (no abort / stack overflow / signal); source read+seek calls <= 64 x (input length + 4096) per \
 operation (work meter, deterministic hang detection); peak live heap during an operation <= 640 MiB + 64 x input length. \
@@ -145,6 +145,9 @@ pub enum Mutation {
     /// index (last 4 bytes of the uncompressed stream) is set so that the index would start at block `k` of the
     /// claimed geometry, `d` bytes off its start
     Geometry { fake: u16, front: bool, k: u16, d: i8 },
+    /// edit of the typed block stream at record granularity (the index is left as it was): kind 0 swap records a and
+    /// b, 1 move record a before b, 2 duplicate a, 3 delete a, 4 give record a the file id of record b
+    Records { kind: u8, a: u16, b: u16 },
 }
 
 #[derive(Clone, Copy, Debug, PartialEq, Eq, Hash, Serialize, Deserialize)]
@@ -429,6 +432,41 @@ pub fn build_input(c: &Case) -> (Vec<u8>, Vec<x25519_dalek::StaticSecret>, Vec<S
                             bytes = reencode_from_comp(&d, &comp);
                         }
                     }
+                    Mutation::Records { kind, a, b } => {
+                        if let Ok((recs, moff)) = refimpl::parse_records(&d.inner) {
+                            // record i spans [start_i, start_{i+1}); the marker record is left where it is
+                            let n = recs.len().saturating_sub(1);
+                            if n >= 1 {
+                                let starts: Vec<usize> = recs.iter().map(|r| r.0).collect();
+                                let mut parts: Vec<Vec<u8>> = (0..n).map(|i| d.inner[starts[i]..starts[i + 1]].to_vec()).collect();
+                                let ia = util::idx(*a, n);
+                                let ib = util::idx(*b, n);
+                                match kind % 5 {
+                                    0 => parts.swap(ia, ib),
+                                    1 => {
+                                        let x = parts.remove(ia);
+                                        parts.insert(ib.min(parts.len()), x);
+                                    }
+                                    2 => {
+                                        let x = parts[ia].clone();
+                                        parts.insert(ib.min(parts.len()), x);
+                                    }
+                                    3 => {
+                                        parts.remove(ia);
+                                    }
+                                    _ => {
+                                        if parts[ia].len() >= 9 && parts[ib].len() >= 9 {
+                                            let id: [u8; 8] = parts[ib][1..9].try_into().unwrap();
+                                            parts[ia][1..9].copy_from_slice(&id);
+                                        }
+                                    }
+                                }
+                                let mut inner: Vec<u8> = parts.concat();
+                                inner.extend_from_slice(&d.inner[moff..]);
+                                bytes = reencode_from_inner(&d, &inner);
+                            }
+                        }
+                    }
                     Mutation::DropMarker | Mutation::DupMarker => {
                         if let (Ok((_, fstart)), Ok((_, moff))) = (refimpl::parse_footer(&d.inner), refimpl::parse_records(&d.inner)) {
                             let mut inner = d.inner[..moff].to_vec();
@@ -681,6 +719,7 @@ fn mutation() -> impl Strategy<Value = Mutation> {
         1 => (prop_oneof![1u32..50, 1000u32..3000], any::<u8>()).prop_map(|(n, target)| Mutation::DeepOffsets { n, target }),
         1 => Just(Mutation::DropMarker),
         1 => Just(Mutation::DupMarker),
+        4 => (0u8..5, any::<u16>(), any::<u16>()).prop_map(|(kind, a, b)| Mutation::Records { kind, a, b }),
         2 => (if SCALED { 0u16..2000 } else { 0u16..60000 }).prop_map(|extra| Mutation::OverlongBlock { extra }),
         2 => (any::<u8>(), prop_oneof![Just(30u8), Just(28), Just(25), 10u8..31], any::<[u8; 4]>()).prop_map(|(block, bits, tail)| Mutation::LargeWindow { block, bits, tail }),
         2 => (prop_oneof![0u16..8, 8u16..1100], any::<bool>(), prop_oneof![0u16..2000, any::<u16>()], prop_oneof![3 => Just(0i8), 1 => Just(1i8), 1 => Just(-1i8), 1 => any::<i8>()]).prop_map(|(fake, front, k, d)| Mutation::Geometry { fake, front, k, d }),
